@@ -156,4 +156,7 @@ def eofTok : Tok := sym .EOF [] false
 def progKeys (c ap : Bool) (prog : List (Option Node)) : List Tok :=
   (progToks c ap prog).map key ++ [key eofTok]
 
+/-- a stream showing the tokens `toks` and the end marker (all positions zero) -/
+def streamOf (toks : List Tok) : TokStream := { toks := toks ++ [eofTok], eof := eofTok, inputLen := 0 }
+
 end Grol.PrintTokens
